@@ -3,6 +3,15 @@ from . import kani
 from .run import known_match
 
 
+def is_harness_arith(f, crate):
+    """an overflow / index / division check that fails in the harness crate's own source (not in /repo, not in core/std)"""
+    loc = f.get("location", "")
+    desc = f.get("description", "")
+    in_harness = loc.startswith("src/") and not loc.startswith("/repo")
+    arith = desc.startswith("attempt to ") or "index out of bounds" in desc or "out of range for slice" in desc
+    return in_harness and arith
+
+
 def run(prop, gi, g, tier, known, do_replay):
     tag = f"{prop}_{gi}"
     if g.get("gen"):
@@ -60,6 +69,10 @@ def run(prop, gi, g, tier, known, do_replay):
                                            "symex_s": hr.symex_s, "solver_s": hr.solver_s})
         elif hr.status == "Failure":
             unlisted = []
+            harness_bugs = [f for f in hr.failed if is_harness_arith(f, g["crate"])]
+            if harness_bugs:
+                out["inconclusive"].append(f"harness {hid}: arithmetic/index failure inside the harness code itself ({harness_bugs[0]['description']} at {harness_bugs[0]['location']}): harness bug, not a finding")
+                continue
             for f in hr.failed:
                 k = known_match(known, prop, hid, f)
                 if k is not None:
